@@ -156,7 +156,7 @@ def tab1(ctx):
     if n_cmp == 0:
         raise AnchorMissing("hm_to_mod: no split comparison found")
     # array lengths of Option<ModKind> arrays
-    arr_re = re.compile(r"^\[core::option::Option<parser::ModKind>; (\d+)\]$")
+    arr_re = re.compile(r"^\[core::option::Option<asca::parser::ModKind>; (\d+)\]$")
     for ap, a in lib.adts.items():
         for v in a["variants"]:
             for f in v["fields"]:
